@@ -45,6 +45,14 @@ theorem source_shape_facts :
     Facts.C35.computeLengthBytesShape = true ∧ Facts.C35.clampToCutMessage = true ∧
     Facts.C35.trimIsTrimRightSpace = true ∧ Facts.C35.completeFixesAndSorts = true := by decide
 
+/-- The 19 small builder methods that the model transliterates line by line (`Token`, `Token.Apply`,
+`UTF16Length`, `Plain`, `Format`, `Reset`, `appendEntities`, `appendMessage`, `Write*`, `Raw`,
+`ShrinkPreCode`/`shrinkPreCode`, `equalRange`, …) still have the source text the transliteration was
+made from (comments and verification hooks ignored).  Fails closed: an edit to one of them, even a
+harmless one, is listed here by name and needs the model re-read. -/
+theorem builder_source_unchanged :
+    Facts.C35.changedBuilderMethods = [] ∧ Facts.C35.pinnedBuilderMethods = 19 := by decide
+
 theorem u16len_append (a b : List Char) : u16len (a ++ b) = u16len a + u16len b := u16len_app a b
 
 /-- The builder's running counter is the UTF-16 length of the text written so far. -/
